@@ -15,7 +15,15 @@ use crate::sexp::{lex, Tok};
 use std::collections::BTreeMap;
 
 const BENIGN: [&str; 5] = ["/dev/mapper/mdt0", "/", "/dev/sdb1", "/mnt/lustre-MDT0000", "mdt0"];
-const AWKWARD: [&str; 16] = [
+const AWKWARD: [&str; 24] = [
+    "/dev/nul\u{0}char",
+    "\u{feff}/dev/bom",
+    "/dev/ls\u{2028}ps\u{2029}",
+    "/dev/esc\u{1b}[0m",
+    "/dev/cr\rlf",
+    "/dev/ff\u{c}del\u{7f}",
+    "/dev/rs\u{1e}us\u{1f}",
+    "/dev/e\u{301}\u{301}combining",
     "/dev/my disk",
     "~user/%s;#(x)",
     "/dev/donn\u{e9}es/\u{b5}0",
@@ -80,13 +88,14 @@ pub fn random_path(rng: &mut Rng, class: PathClass) -> String {
             }
             if rng.chance(1, 8) {
                 let mut s = String::from("/");
-                let n = rng.range(1000, 4096);
+                // a few KiB usually; now and then beyond 64 KiB
+                let n = if rng.chance(1, 12) { rng.range(65_530, 70_000) } else { *rng.pick(&[255u64, 256, 1000, 4095, 4096, 4097]) };
                 for i in 0..n {
                     s.push(if i % 17 == 16 { '/' } else { (b'a' + (i % 26) as u8) as char });
                 }
                 s
             } else if rng.chance(1, 4) {
-                let alphabet: Vec<char> = " ~%;#()[]{}'|&$*?<>=!\t\u{e9}\u{3b1}\u{4e2d}/abc012.-_".chars().collect();
+                let alphabet: Vec<char> = " ~%;#()[]{}'|&$*?<>=!\t\r\u{0}\u{7f}\u{1b}\u{feff}\u{2028}\u{e9}\u{3b1}\u{4e2d}\u{1F4BE}\u{301}/abc012.-_".chars().collect();
                 let n = rng.range(1, 24);
                 (0..n).map(|_| *rng.pick(&alphabet)).collect()
             } else {
